@@ -226,8 +226,10 @@ pub fn sun_position(declination: f32, hourangle: f32, location: Location) -> Sun
 /// hourangle (ω): solar hour angle, degrees [-180, 180]
 /// latitude (φ_w): latitude of the weather station (degrees)
 pub fn altitude_sol_from_data(declination: f32, hourangle: f32, latitude: f32) -> f32 {
+    // Con el sol en el cénit el redondeo en f32 puede dejar el seno ligeramente por encima de 1 (asin -> NaN)
     match asind(
-        sind(declination) * sind(latitude) + cosd(declination) * cosd(latitude) * cosd(hourangle),
+        (sind(declination) * sind(latitude) + cosd(declination) * cosd(latitude) * cosd(hourangle))
+            .clamp(-1.0, 1.0),
     ) {
         a_sol if a_sol >= 0.0001 => a_sol,
         _ => 0.0,
